@@ -1,20 +1,16 @@
 SPECIFICATION Spec
-CONSTANT Mode = "dssr"
-CONSTANT McAlphabet = {"c"}
-CONSTANT McMaxLen = 0
-CONSTANT McUnitKinds = {"plain"}
-CONSTANT McTabKinds = {"three"}
-CONSTANT McLabelKinds = {"lw"}
-CONSTANT McWraps = {"none"}
-CONSTANT MaxLines = 0
-CONSTANT Contained = {"ValueError", "IndexError"}
-CONSTANT McNameKinds = {"exact", "wrongnumber"}
-CONSTANT McLwKinds = {"valid", "lower", "reverse", "dunder"}
-CONSTANT MaxPairs = 2
-CONSTANT McStackKinds = {"exact", "wrongnumber"}
-CONSTANT MaxStackLen = 2
-CONSTANT MaxStacks = 1
+CONSTANT Modes = {"dssr"}
+CONSTANT LabelSpaces <- QuickLabelSpaces
+CONSTANT ListingSpaces <- QuickListingSpaces
+CONSTANT DssrSpaces <- AsImplDssrSpaces
+CONSTANT Contained <- BothContained
 CONSTANT LwTest = "dir"
+INVARIANT LabelMapExact
+INVARIANT LabelStepsTyped
+INVARIANT Fr3dNeverRaises
+INVARIANT LineYieldsExactlyOne
+INVARIANT MalformedSkipped
+INVARIANT UnknownKeptAsOther
 INVARIANT DssrPairsExact
 INVARIANT DssrStacksExact
 CHECK_DEADLOCK FALSE
